@@ -484,7 +484,7 @@ theorem foldl_bump_row_zero (L : List (Nat × Nat × α)) (ns : Array α) (i : N
     rw [hL e (by simp) hk, LawfulFloatLike.fabs_eq, abs_zero]
 
 /-- all stored entries of row `i` are zero -/
-def RowZero (M : Csc α) (i : Nat) : Prop := ∀ e ∈ M.entries, e.1 = i → e.2.2 = 0
+def RowZero (M : Csc α) (i : Nat) : Prop := ∀ e ∈ M.storedEntries, e.1 = i → e.2.2 = 0
 
 theorem rowNorms_zero (M : Csc α) (w : Array α) (i : Nat) (h : RowZero M i) :
     (rowNorms M w).getD i 0 = 0 := by
